@@ -617,7 +617,11 @@ func (n *nlWrap) routeReplace(rt *netlink.Route) error {
 	// delete of the same destination is the call with in-flight state, so it
 	// has its own (higher) failure rate
 	if (inFlight && w.fault("route_replace_after_own_delete")) || w.fault("route_replace") {
-		if w.r.Src.Chance(400, "replace_sticky") {
+		pSticky := 400
+		if inFlight {
+			pSticky = 750
+		}
+		if w.r.Src.Chance(pSticky, "replace_sticky") {
 			w.replaceStuck[stuckKey] = true
 			w.r.Probe("route_replace_failed_persistently")
 		}
@@ -1358,7 +1362,11 @@ func run(r *core.R) {
 	enabled := 0
 	if w.faultsOn {
 		for _, k := range faultKinds {
-			if r.Src.Chance(450, "cfg_fault_on_"+k) {
+			pOn := 450
+			if k == "route_replace_after_own_delete" {
+				pOn = 650
+			}
+			if r.Src.Chance(pOn, "cfg_fault_on_"+k) {
 				w.rate[k] = r.Src.Range(20, 250, "cfg_fault_rate_"+k)
 				if k == "route_replace_after_own_delete" {
 					w.rate[k] = r.Src.Range(200, 700, "cfg_fault_rate_inflight")
@@ -1381,11 +1389,11 @@ func run(r *core.R) {
 	mix := r.Src.Intn(5, "cfg_mix")
 	//                 apply upd rem set link notify oob resync time resyncIface settle revert
 	weights := [][]int{
-		{14, 18, 6, 8, 10, 14, 8, 4, 6, 2, 6, 6},
-		{12, 12, 4, 5, 22, 20, 4, 4, 6, 4, 8, 5},
-		{12, 26, 8, 14, 6, 10, 4, 4, 4, 2, 6, 10},
-		{14, 14, 4, 6, 8, 10, 22, 6, 6, 2, 8, 6},
-		{18, 24, 4, 8, 16, 3, 3, 3, 4, 2, 2, 6},
+		{14, 18, 6, 8, 10, 14, 8, 4, 5, 2, 6, 9},
+		{12, 12, 4, 5, 22, 20, 4, 4, 5, 4, 8, 8},
+		{12, 26, 8, 12, 6, 10, 4, 4, 4, 2, 6, 14},
+		{14, 14, 4, 6, 8, 10, 22, 6, 5, 2, 8, 8},
+		{18, 24, 4, 8, 16, 3, 3, 3, 4, 2, 2, 10},
 	}[mix]
 	var clNames []string
 	for _, cs := range w.classes {
